@@ -770,6 +770,13 @@ def build_unit(tmpl_path: str, repo: str, inline=None, pull_consts=None):
             meta['properties'] = d.split()[1:]
         elif d.startswith('min-verified '):
             meta['min_verified'] = int(d.split()[1])
+        elif d.startswith('helper-files '):
+            # further source files in which R13 may look for a free helper function a refactor moved code into (e.g. the crate's utils.rs)
+            for rel_ in d.split()[1:]:
+                try:
+                    load(rel_)
+                except Exception:
+                    pass
         elif d.startswith('default-rw-late '):
             # like default-rw, but applied after every other rewrite of the fn (generic shapes that must not pre-empt specific ones)
             arg = d[len('default-rw-late '):].strip()
@@ -1026,10 +1033,11 @@ def _emit_fn(g, meta, tmpl, rel, src, m, ctx, name, kv, subs):
             if arg.strip() in ('start', 'end', 'tail'):
                 hints.append((arg.strip(), '', 0, content, lno))
                 continue
-            mo4 = re.match(r'loopstart\s+(\d+)\s*$', arg)
+            mo4 = re.match(r'(loopstart|afterloop)\s+(\d+)\s*$', arg)
             if mo4:
-                # first thing inside the body of loop #k (shape-independent: no statement text is named)
-                hints.append(('loopstart', '', int(mo4.group(1)), content, lno))
+                # loopstart: first thing inside the body of loop #k; afterloop: right after its closing brace (shape-independent anchors:
+                # no statement text is named)
+                hints.append((mo4.group(1), '', int(mo4.group(2)), content, lno))
                 continue
             mo3 = re.match(r'(before|after)\s+`(.*)`\s*(?:#(\d+))?\s*$', arg)
             if not mo3:
@@ -1061,10 +1069,13 @@ def _emit_fn(g, meta, tmpl, rel, src, m, ctx, name, kv, subs):
         if where == 'end':
             inserts.append((len(body), content))
             continue
-        if where == 'loopstart':
+        if where in ('loopstart', 'afterloop'):
             if kk >= len(loops):
                 raise ExtractError(f'{name}: loop #{kk} not found ({len(loops)} loops) — anchor lost')
-            inserts.append((loops[kk][1] + 1, content))
+            if where == 'loopstart':
+                inserts.append((loops[kk][1] + 1, content))
+            else:
+                inserts.append((match_brace(mask(body), loops[kk][1]) + 1, content))
             continue
         if where == 'tail':
             # just before the tail expression: after the last `;` at brace depth 0 of the body
